@@ -348,3 +348,7 @@ def run(prop: str, tier_: str) -> int:
         "go through the matching writer and reader; distinct = distinct (type, value) pairs probed",
         floor_ok,
     )
+
+
+def replay(prop: str, path: str) -> int:
+    return common.replay_by_rerun(prop, path, run)
